@@ -247,13 +247,24 @@ def c08_t3(repo, res):
             res.add(Finding("T3", "magpylib/_src/fields/field_wrap_BH.py", where.split(">")[-1], txt, f"{what} modified in place ({how}): a later computation sees the change", line))
     res.require(n_cls >= 10, f"T3: only {n_cls} classes with a functional interface")
     # (4) level 1 / src dict / tiling: no sink on object-held arrays
+    star_seen = False
     for fn, params in (("getBH_level1", dict(field_func=Unknown("ff"), field=Const("B"), position=O({"P:position"}), orientation=O({"P:orientation"}),
                                              observers=O({"P:observers"}))),
                        ("get_src_dict", dict(group=O({"P:group"}), n_pix=Unknown(), n_pp=Unknown(), poso=O({"P:poso"}))),
                        ("tile_group_property", dict(group=O({"P:group"}), n_pp=Unknown(), prop_name=Unknown()))):
         if fn not in mod.funcs:
+            if fn == "tile_group_property" and star_seen:
+                continue        # the tiling helper was merged into get_src_dict: its obligation was judged on the dict entry there
             raise AnalysisError(f"anchor vanished: {fn}")
         o, dom, it = run_node(W, mod.funcs[fn], params)
+        if fn == "get_src_dict" and isinstance(o, Const) and isinstance(o.value, dict) and "*" in o.value:
+            # the per-source properties (entries under computed keys) are new arrays, whichever function builds them
+            star_seen = True
+            orgs_ = sorted(x for x in org_of(o.value["*"]) if x != "fresh" and not x.startswith("const"))
+            res.ob("T3:get_src_dict hands new arrays to the field function for every per-source property", not orgs_, {"rule": "T3", "function": fn, "entry_origins": sorted(org_of(o.value["*"]))})
+            if orgs_:
+                res.add(Finding("T3", "magpylib/_src/fields/field_wrap_BH.py", fn, "per-source property entry of the level-1 argument dict",
+                                f"the value handed to the field function may be a view of an object's own attribute (origins {orgs_}): an in-place step of the field function then changes the object"))
         res.evaluations += 1
         mutp = [x for x in dom.mutations]
         res.ob(f"T3:{fn}:no in-place sink on inputs/object arrays", not mutp, {"rule": "T3", "function": fn, "sinks": [x[4] for x in mutp]})
